@@ -416,6 +416,26 @@ def check(repo):
         aw = _await_nodes(c)
         # the moment the registry was consulted: the test itself, or the REG.get(...) binding it examines
         tests = [c.nodes[o] for (_n, _p, o) in _member_tests(repo, mgr, fi, c)]
+        # acquiring the registry lock gives up control only when the lock is held, and it is never held across an await when no critical
+        # section contains one: then `async with lock` is not a point at which another connection can run
+        lock_bodies_atomic = all(not any(isinstance(y, (ast.Await, ast.AsyncFor, ast.AsyncWith)) for b_ in a_.body for y in ast.walk(b_))
+                                 for f2 in mgr.methods.values() for a_ in ast.walk(f2.node)
+                                 if isinstance(a_, ast.AsyncWith) and any("lock" in (dotted(i.context_expr) or "").lower() for i in a_.items))
+        aw1 = _await_nodes(c, exclude_lock=lock_bodies_atomic)
+
+        def await_label(nid_):
+            """what is awaited at this node, by the name of the awaited call / attribute (stable under renamed locals)"""
+            nd = c.nodes[nid_]
+            root = nd.ast if nd.kind == "test" else nd.stmt
+            if isinstance(root, ast.AsyncWith):
+                return "async with " + ",".join((dotted(i.context_expr) or "?").split(".")[-1] for i in root.items)
+            if isinstance(root, ast.AsyncFor):
+                return "async for"
+            for y in ast.walk(root):
+                if isinstance(y, ast.Await):
+                    v = y.value.func if isinstance(y.value, ast.Call) else y.value
+                    return (v.attr if isinstance(v, ast.Attribute) else (v.id if isinstance(v, ast.Name) else "expr"))
+            return "await"
         for kind, node in _registry_ops(fi):
             if kind != "store":
                 continue
@@ -423,21 +443,25 @@ def check(repo):
                 for t in tests:
                     if not c.can_reach(t.id, s):
                         continue
-                    w = _await_between(c, t.id, s, aw)
-                    desc = {"function": fi.qual, "test_line": t.line, "store_line": c.nodes[s].line,
-                            "await_line": c.nodes[w].line if w is not None else None}
-                    if w is None:
+                    between = sorted(w for w in aw1 if w != t.id and c.can_reach(t.id, w) and (w == s or c.can_reach(w, s)))
+                    desc = {"function": fi.qual, "test_line": t.line, "store_line": c.nodes[s].line, "await_lines": [c.nodes[w].line for w in between]}
+                    if not between:
                         r1.ok(desc)
                         continue
-                    # re-test after the last await?  (a loop back to the test counts)
-                    retest = c.can_reach(w, t.id) and not c.can_reach(w, s, avoid={t.id})
-                    if retest:
-                        r1.ok(desc)
-                    else:
-                        r1.fail_fn(fi, c.nodes[s].stmt, "registry store after await since membership test",
-                                   "the membership test at line %d licenses the registry store at line %d, but control is given up in between "
-                                   "(await at line %d): two connections waiting on the same predecessor both proceed and are served at the same time" % (
-                                       t.line, c.nodes[s].line, c.nodes[w].line), witness=desc)
+                    by_label = {}
+                    for w in between:
+                        by_label.setdefault(await_label(w), []).append(w)
+                    for label, ws in sorted(by_label.items()):
+                        w = ws[0]
+                        # re-test after the last await?  (a loop back to the test counts)
+                        retest = all(c.can_reach(w_, t.id) and not c.can_reach(w_, s, avoid={t.id}) for w_ in ws)
+                        if retest:
+                            r1.ok(desc)
+                        else:
+                            r1.fail_fn(fi, c.nodes[s].stmt, "registry store after await since membership test [%s]" % label,
+                                       "the membership test at line %d licenses the registry store at line %d, but control is given up in between "
+                                       "(await of %s at line %d): two connections that both passed the test before either registered proceed and are served at the same time" % (
+                                           t.line, c.nodes[s].line, label, c.nodes[w].line), witness=desc)
     r1.require(r1.obligations >= 1, create, "check-then-act instances", "no membership-test/registration pair found to analyse")
 
     # ---------------------------------------------------------------- R12.2 stale snapshot
